@@ -205,3 +205,23 @@ def validate(trace_module: str, traces: list, name: str, cfg_text: str = None, s
         for f in wd.glob("shard*.json"):
             f.unlink()
     return accepted, info, {"generated": gen, "distinct": dist, "wall": time.time() - t0}
+
+
+def tlaps_check(module: str, name: str, timeout: int = 900) -> dict:
+    """Run tlapm on spec/proofs/<module>.tla in a scratch copy (fresh fingerprints).  Returns {proved, total, ok, wall}."""
+    wd = workdir("tlaps_" + name)
+    shutil.copy(SPEC / "proofs" / f"{module}.tla", wd / f"{module}.tla")
+    t0 = time.time()
+    try:
+        p = subprocess.run(["tlapm", "--threads", "4", "--cleanfp", f"{module}.tla"], cwd=str(wd), capture_output=True, text=True, timeout=timeout)
+    except (subprocess.TimeoutExpired, FileNotFoundError) as ex:
+        raise TLCError(f"tlapm failed to run: {ex}") from ex
+    out = p.stdout + p.stderr
+    (wd / "out.txt").write_text(out)
+    m = re.search(r"All (\d+) obligations? proved", out)
+    res = {"module": module, "wall": round(time.time() - t0, 1), "ok": bool(m), "proved": int(m.group(1)) if m else 0}
+    if not m:
+        f = re.search(r"(\d+)/(\d+) obligations? failed", out)
+        res["failed"] = f.group(0) if f else out[-400:]
+    shutil.rmtree(wd / ".tlacache", ignore_errors=True)
+    return res
